@@ -58,6 +58,11 @@ type c15Op struct {
 	C      int    `json:"c"`              // index into Chals
 	Name   string `json:"name,omitempty"` // tamper: identifier whose token file is hit
 	V      string `json:"v,omitempty"`    // tamper: delete | corrupt | empty
+	// clean: the embedded solver's CleanUp reports an error although it did its work (local/remote:
+	// the token file is deleted but the storage reports a failure, as when the acknowledgement of a
+	// networked delete is lost; mem: the wrapped solver's CleanUp fails). The challenge is no longer
+	// pending all the same: the state is "cleaned" and nothing may be answered.
+	Fault bool `json:"fault,omitempty"`
 	// ask: a request served by this process in the middle of the history (its answer is not
 	// recorded; what matters is that answering must not change what later requests get)
 	Q *c15Query `json:"q,omitempty"`
@@ -95,6 +100,7 @@ type c15Env struct {
 	appLeaf  []byte
 	stopAll  func()
 	loadFail bool
+	cleanFault bool // a Delete of a token file is applied but reports an error
 	host     string
 }
 
@@ -129,6 +135,10 @@ func c15NewEnv() (*c15Env, error) {
 		if e.loadFail && op.Kind == "Load" && strings.Contains(op.Key, "challenge_tokens") {
 			return errors.New("injected storage read failure")
 		}
+		if e.cleanFault && op.Kind == "Delete" && strings.Contains(op.Key, "challenge_tokens") {
+			e.backend.Remove(op.Key) // the delete is applied, its acknowledgement is lost
+			return errors.New("injected: delete applied, acknowledgement lost")
+		}
 		return nil
 	}
 	mk := func(inst string) (*certmagic.Config, []*certmagic.ACMEIssuer, *certmagic.Cache, certmagic.Storage) {
@@ -162,6 +172,9 @@ func c15NewEnv() (*c15Env, error) {
 func (e *c15Env) solverFor(op c15Op, ch c15Chal) (acmez.Solver, error) {
 	switch op.Place {
 	case "mem":
+		if op.Kind == "clean" && op.Fault {
+			return certmagic.VerifSolverWrapper(&doubles.NoopSolver{FailCleanUp: errors.New("injected clean-up failure")}), nil
+		}
 		return certmagic.VerifSolverWrapper(&doubles.NoopSolver{}), nil
 	case "local":
 		m, err := certmagic.VerifChallengeSolvers(e.issB[op.J], op.TestCA)
@@ -214,6 +227,13 @@ func (e *c15Env) apply(in *c15In, op c15Op) error {
 		}
 		if op.Kind == "present" {
 			return s.Present(ctx, ch.acme())
+		}
+		if op.Fault {
+			// acmez only logs a clean-up error; so do we (whether the error surfaces is not the point)
+			e.cleanFault = true
+			_ = s.CleanUp(ctx, ch.acme())
+			e.cleanFault = false
+			return nil
 		}
 		return s.CleanUp(ctx, ch.acme())
 	case "ask":
@@ -817,6 +837,7 @@ func runC15(tier string, seed int64, outdir string, replay string) error {
 	P := func(place string, j, c int) c15Op { return c15Op{Kind: "present", Place: place, J: j, C: c} }
 	C := func(place string, j, c int) c15Op { return c15Op{Kind: "clean", Place: place, J: j, C: c} }
 	A := func(c int) c15Op { return c15Op{Kind: "ask", C: c} } // this process answers c's validation requests
+	CF := func(place string, j, c int) c15Op { return c15Op{Kind: "clean", Place: place, J: j, C: c, Fault: true} }
 	// ---- corpus: witnesses of the fixed findings and the four states of the property text
 	for _, id := range idents {
 		for _, typ := range []string{"http-01", "tls-alpn-01"} {
@@ -842,6 +863,10 @@ func runC15(tier string, seed int64, outdir string, replay string) error {
 				scen{"remote-asked-renewed", []c15Chal{c0, c1}, []c15Op{P("remote", 0, 0), A(0), C("remote", 0, 0), P("remote", 0, 1)}, []string{"cleaned", "remote"}, ""},
 				scen{"remote-asked-renewed-other-type", []c15Chal{c0, co}, []c15Op{P("remote", 1, 0), A(0), C("remote", 1, 0), P("remote", 0, 1), A(1)}, []string{"cleaned", "remote"}, ""},
 				scen{"local-asked-cleaned", []c15Chal{c0}, []c15Op{P("local", 0, 0), A(0), C("local", 0, 0)}, []string{"cleaned"}, ""},
+				// the embedded clean-up reports an error: the challenge is over all the same
+				scen{"local-cleaned-faulty", []c15Chal{c0}, []c15Op{P("local", 0, 0), CF("local", 0, 0)}, []string{"cleaned"}, ""},
+				scen{"remote-cleaned-faulty", []c15Chal{c0}, []c15Op{P("remote", 1, 0), CF("remote", 1, 0)}, []string{"cleaned"}, ""},
+				scen{"local-cleaned-faulty-renewed-remotely", []c15Chal{c0, c1}, []c15Op{P("local", 0, 0), A(0), CF("local", 0, 0), P("remote", 0, 1)}, []string{"cleaned", "remote"}, ""},
 			)
 		}
 	}
@@ -852,6 +877,7 @@ func runC15(tier string, seed int64, outdir string, replay string) error {
 		scens = append(scens,
 			scen{"mem-only", []c15Chal{d}, []c15Op{P("mem", 0, 0)}, []string{"mem"}, ""},
 			scen{"mem-only-cleaned", []c15Chal{d}, []c15Op{P("mem", 0, 0), C("mem", 0, 0)}, []string{"cleaned"}, ""},
+			scen{"mem-only-cleaned-faulty", []c15Chal{d}, []c15Op{P("mem", 0, 0), CF("mem", 0, 0)}, []string{"cleaned"}, ""},
 			scen{"two", []c15Chal{a, b}, []c15Op{P("local", 0, 0), P("remote", 1, 1)}, []string{"local", "remote"}, ""},
 			scen{"two-one-cleaned", []c15Chal{a, b, ip}, []c15Op{P("local", 0, 0), P("remote", 1, 1), P("remote", 0, 2), C("local", 0, 0)}, []string{"cleaned", "remote", "remote"}, ""},
 			scen{"corrupt", []c15Chal{a}, []c15Op{P("remote", 0, 0), {Kind: "tamper", J: 0, Name: "a.example", V: "corrupt"}}, []string{"tampered"}, ""},
@@ -902,6 +928,7 @@ func runC15(tier string, seed int64, outdir string, replay string) error {
 			default:
 				cl := placeOf[k]
 				cl.Kind = "clean"
+				cl.Fault = r.Intn(3) == 0
 				ops, state[k] = append(ops, cl), "cleaned"
 			}
 		}
